@@ -33,11 +33,16 @@ def record(p, pproj, pidx, porder, t, scope, flt, ops=True):
     kw = {'automorphism_filter': bool(flt)}
     if scope is not None:
         kw['searching_scope'] = scope
-    maps = [[tidx[mp[n]] for n in porder] for mp in p.get_mapping(t, **kw)]
-    rec = {'p': pproj, 't': tp, 'scope': sorted(tidx[x] for x in scope) if scope is not None else [], 'filter': 1 if flt else 0, 'maps': maps,
-           'sub': 9, 'lt': 9, 'le': 9, 'eq': 9}
-    if ops:
-        rec.update({'sub': int(p.is_substructure(t)), 'le': int(p <= t), 'lt': int(p < t), 'eq': int(p.is_equal(t))})
+    rec = {'p': pproj, 't': tp, 'scope': sorted(tidx[x] for x in scope) if scope is not None else [], 'filter': 1 if flt else 0, 'maps': [],
+           'sub': 9, 'lt': 9, 'le': 9, 'eq': 9, 'exc': ''}
+    try:      # a search that raises, or returns a mapping without one of the pattern atoms, is an observation (clause search-raised)
+        rec['maps'] = [[tidx[mp[n]] for n in porder] for mp in p.get_mapping(t, **kw)]
+        if ops:
+            rec.update({'sub': int(p.is_substructure(t)), 'le': int(p <= t), 'lt': int(p < t), 'eq': int(p.is_equal(t))})
+    except (KeyError, IndexError, TypeError, ValueError) as e:
+        rec['maps'] = []
+        rec['exc'] = type(e).__name__
+        rec.update({'sub': 9, 'lt': 9, 'le': 9, 'eq': 9})
     return rec
 
 
@@ -90,6 +95,12 @@ def observe(case):
             if flt and rnd.random() < .4:
                 scope = set(rnd.sample(list(t._atoms), max(1, len(t) // 2)))
             out.append(record(q, pp, pidx, order, t, scope, flt))
+        if case.get('component_scopes'):      # scopes that leave out whole components of the target (every non-empty proper subset of them)
+            comps = [sorted(c) for c in t.connected_components]
+            for mask in range(1, (1 << len(comps)) - 1):
+                scope = {x for k, c in enumerate(comps) if mask >> k & 1 for x in c}
+                for flt in (0, 1):
+                    out.append(record(q, pp, pidx, order, t, scope, flt, ops=False))
     return out
 
 
@@ -132,6 +143,10 @@ def run(ck):
     for s in ['[Cl,Br]-C', '[Si,P]', '[N,O]-C', 'C-[F,Cl,Br,I]', '[Sn,Na]~[A]', '[Co,Ni]', '[Cl,Br].[Na,K]']:
         for t in ['CCCl', 'BrCCB(C)C', 'CSC', 'C[Si](C)(C)I', 'NCCO', 'CC(F)CI', 'C=O.[Co]', 'N[Na]', '[Na+].[Cl-].NC']:
             cases.append({'key': f'smarts:{s}:{t}', 'kind': 'smarts', 't': t, 'p': s, 'rs': rnd.randrange(1 << 30), 'thiele': False})
+    # patterns of several components under scopes that exclude whole components of the target
+    for s in ['C.O', 'CC.N', 'C.N.O', 'CO.CN', 'C.C', '[O;D1].[N;D1]', 'CC']:
+        for t in ['CCO.CCN.O', 'CCO.CCN', 'C[N+](C)(C)C.[Cl-].O', 'OCCO.NCCN.CC', 'CC.CC.CC']:
+            cases.append({'key': f'smarts:{s}:{t}:component-scopes', 'kind': 'smarts', 't': t, 'p': s, 'rs': rnd.randrange(1 << 30), 'thiele': False, 'component_scopes': True})
     # cycles that exist only through a coordinate bond (ring perception ignores them, the matcher must not), acyclic patterns on them
     for s in ['CCO', 'NCCN', 'CCCC', 'C~O', 'CC', 'C1CO1', 'N~N']:
         for t in ['C1C~O1', 'N1CCN~1', 'C1CC~C1.CCCC', 'C1CCO~1', 'N1CC~N1', 'C1C~C1', 'O1CCN~1.NCCO']:
